@@ -15,7 +15,8 @@ LEVEL = "exploration"
 RULE = (
     "parse family (Sigma_t24^<=k ansi, G(1)xD(1)+G(2), every dialect x (Sigma_t^<=2 + G(1)), fixtures <= bound in own dialect, Jinja "
     "skeletons): tree.as_record with {show_raw} x {include_meta} x {code_only} x {include_position}, and sqlfluff.parse; CLI `parse` in "
-    "human / json / yaml format with and without --include-meta / --code-only on a file family. Oracle: flattening the record in document "
+    "human / json / yaml format with and without --include-meta / --code-only on a file family; 36 (thorough 436) Jinja files whose if / elif / else branches hold different SQL (bare, inside a loop, in a WHERE clause) through "
+    "the CLI human format, where EVERY 'Variant N' block must list exactly the leaves of that variant's tree. Oracle: flattening the record in document "
     "order gives exactly [(type path, raw)] of the tree's leaves (metas per flag, non-code dropped under code_only); concatenated raws == "
     "rendered SQL (without code_only); positions equal the leaf's pos_marker. Non-trivial = tree has a node with two children of the same "
     "type (the list-vs-dict branch of the serialiser) or >= 5 leaves."
@@ -33,6 +34,28 @@ def cases(tier):
     files = corpus.D(corpus.G(0), 1, "WM")[:16] + ["SELECT a b c FROM t\n", "SELECT (a FROM t\n", "SELECT a, a, a FROM t, t\n", "", "\n", "SELECT 'é'\n", "SELECT a -- c\n/* d */ FROM t\n", ";;\n"]
     for i in range(0, len(files), 4):
         out.append({"k": "cli", "files": files[i : i + 4]})
+    # Jinja files through the CLI: every rendering variant printed by the human format must be THAT variant's tree
+    tj = jinja_cli_files()
+    if tier != "quick":
+        tj += [t for t in corpus.t_seqs(1, 2, corpus.T_LITS, max_len=40) if corpus.has_markup(t) and ("else" in t or "elif" in t)][:400]
+    for i in range(0, len(tj), 4):
+        out.append({"k": "clij", "files": tj[i : i + 4]})
+    return out
+
+
+def jinja_cli_files():
+    """Files whose unreached branches hold different SQL, so every rendering variant has a different tree."""
+    import itertools
+
+    fr = ["a", "b, c", "a + 1", "1"]
+    out = []
+    for a, b in itertools.permutations(fr, 2):
+        out.append("SELECT {% if c %}" + a + "{% else %}" + b + "{% endif %} FROM t\n")
+        out.append("SELECT 1{% for x in xs %}, {% if c %}" + a + "{% else %}" + b + "{% endif %}{% endfor %} FROM t\n")
+    for a, b, c3 in itertools.permutations(fr[:3], 3):
+        out.append("SELECT {% if not c %}" + a + "{% elif d %}" + b + "{% else %}" + c3 + "{% endif %} FROM t\n")
+    for a, b in itertools.permutations(["a = 1", "b IS NULL", "a IN (1, 2)"], 2):
+        out.append("SELECT a FROM t WHERE {% if c %}" + a + "{% else %}" + b + "{% endif %}\n")
     return out
 
 
@@ -168,10 +191,88 @@ def run_cli(case, res):
             res.setdefault("sample", one)
 
 
+HUMAN_LINE = re.compile(r"^\[L:\s*\d+, P:\s*\d+\]\s*\|(\s*)([\w\[\]() ]+):\s+('.*'|\".*\")\s*$")
+
+
+def human_blocks(out):
+    """human `parse` output -> list of lists of quoted raws, one list per 'Variant N:' block (or one block)."""
+    blocks, cur = [], None
+    for line in out.splitlines():
+        if re.match(r"^Variant \d+:\s*$", line):
+            cur = []
+            blocks.append(cur)
+            continue
+        m = HUMAN_LINE.match(line)
+        if m:
+            if cur is None:
+                cur = []
+                blocks.append(cur)
+            try:
+                cur.append(ast.literal_eval(m.group(3)))
+            except Exception:
+                pass
+    return blocks
+
+
+def run_clij(case, res):
+    d = os.path.join(scratch_root(), f"c28j-{os.getpid()}")
+    os.makedirs(d, exist_ok=True)
+    with open(os.path.join(d, ".sqlfluff"), "w") as f:
+        f.write("[sqlfluff]\ndialect = ansi\ntemplater = jinja\n[sqlfluff:templater:jinja:context]\nc = True\nd = True\nv = 1\ns = x\ne = y\nxs = [1, 2]\n")
+    from sqlfluff.core import FluffConfig, Linter
+
+    old = os.getcwd()
+    os.chdir(d)
+    try:
+        lnt = Linter(config=FluffConfig.from_path(d))
+    finally:
+        os.chdir(old)
+    for text in case["files"]:
+        one = {"k": "clij", "files": [text]}
+        fn = os.path.join(d, "f%s.sql" % digest(text))
+        with open(fn, "w", newline="") as f:
+            f.write(text)
+
+        def add(clause, features, detail, _one=one):
+            res["fails"].append({"clause": clause, "features": features, "detail": detail, "case": _one})
+
+        parsed = lnt.parse_string(text, fname=fn)
+        trees = [v.tree for v in parsed.parsed_variants]
+        if not trees or any(t is None for t in trees):
+            res["stats"]["no_tree"] = res["stats"].get("no_tree", 0) + 1
+            continue
+        for flags in ([], ["--code-only"]):
+            co = "--code-only" in flags
+            res["n"] += 1
+            rc, out, err, exc = cli.run(["parse", fn, "--format", "human"] + flags, cwd=d)
+            if exc:
+                add("cli_exception", {"format": "human"}, {"exc": exc[-300:]})
+                continue
+            blocks = human_blocks(out)
+            if not blocks and len(trees) == 1:
+                blocks = [[]]  # nothing but whitespace / metas: no quoted leaf line and no 'Variant' header
+            if len(blocks) != len(trees):
+                add("human_variant_count", {"flags": "".join(flags)}, {"blocks": len(blocks), "variants": len(trees)})
+                continue
+            for vi, (got, tree) in enumerate(zip(blocks, trees)):
+                want = [r for p, r, sg in tree_leaves(tree, True, co) if not sg.is_meta and r != ""]
+                got = [r for r in got if r != ""]
+                if got != want:
+                    add("human_leaf_texts", {"flags": "".join(flags), "variant": min(vi, 1), "variants": min(len(trees), 2)}, {"variant": vi, "got": got[:10], "want": want[:10]})
+                    break
+        if len(trees) >= 2:
+            res["nontrivial"] += 1
+            res.setdefault("sample", one)
+        res["cls"].add(digest((text, len(trees))))
+
+
 def run_case(case):
     res = {"n": 0, "fails": [], "cls": set(), "stats": {}, "nontrivial": 0}
     if case["k"] == "cli":
         run_cli(case, res)
+        return res
+    if case["k"] == "clij":
+        run_clij(case, res)
         return res
     for one, d, tpl, ci, text in parsefam.expand(case):
         res["n"] += 1
